@@ -25,6 +25,9 @@ package main
 //	cli fasta|fastq <flags> <n> (<id-hex> <seq-hex> <qual-hex|-> <annspec>)*n [+ <floats>]
 //	                                                            real Format*Batch -> `obiconvert` subprocess -> `obiconvert` again
 //	                                                            flags: letters of z (-Z, gunzipped by the harness) s (stdin) x (--solexa: file written with offset 64) or "-"
+//	conc <g> <r> <so> <si> <n> n×[fasta|fastq j|g <nr> (<id-hex> <seq-hex> <qual-hex|-> <annspec>)*nr] [+ n×[<floats> (<info-hex> <lib>)*nr]]
+//	                                                            n `rt` cases alone (result = their results joined by " ; "), then the same from g goroutines, r rounds (c02_conc.go)
+//	race conc …                                                 the same case replayed through a `go build -race` build of the harness (thorough tier)
 import (
 	"bytes"
 	stdjson "encoding/json"
@@ -919,6 +922,8 @@ func (c02) Gen(rng *rand.Rand, tier string, emit func(string)) {
 			emit(fmt.Sprintf("rt %s %s %d %d %d %s", fm, hp, so, si, nr, strings.Join(recs, " ")))
 		}
 	}
+	// wave 3, LAST (the cases above keep their PRNG draws): the round trips under concurrent use
+	c02GenConc(rng, tier, emit)
 }
 
 // ---------------------------------------------------------------- execution
@@ -1036,6 +1041,15 @@ func (c02) Exec(c string) (string, []Fail) {
 	}
 
 	switch {
+	case f[0] == "conc":
+		// wave 3: the round trips under concurrent use (c02_conc.go)
+		return c02ExecConc(c, f)
+	case f[0] == "race" && len(f) >= 2 && f[1] != "race":
+		res, fs := c02Race(strings.TrimPrefix(c, "race "))
+		if caseOverride != "" && !strings.HasPrefix(caseOverride, "race ") {
+			caseOverride = "race " + caseOverride
+		}
+		return res, fs
 	case f[0] == "obik" && len(f) == 2:
 		return c02ExecObik(f, fail, &fails)
 	case f[0] == "cli" && len(f) >= 4:
